@@ -488,7 +488,57 @@ func runCase(phase string, i int) (res worker.Result) {
 		steps := 2 + rng.IntN(8)
 		foreignLayout, noMoreReopen := false, false
 		for s := 0; s < steps; s++ {
-			op := rng.IntN(11)
+			op := rng.IntN(12)
+			if op == 11 {
+				// a GC whose context is already over: it fails and changes nothing, or it succeeds and is judged like any GC
+				cctx, cancel := context.WithCancel(ctx)
+				cancel()
+				before := existing(st, g, nodes)
+				named := 0
+				_ = ociStore.Tags(ctx, "", func(tags []string) error {
+					for _, tg := range tags {
+						if !strings.Contains(tg, ":") {
+							named++
+						}
+					}
+					return nil
+				})
+				gcErr := ociStore.GC(cctx)
+				history = append(history, step{Op: fmt.Sprintf("gc-under-cancelled-context(err=%v, named tags before=%d)", gcErr != nil, named)})
+				histKinds += "k"
+				after := existing(st, g, nodes)
+				if gcErr != nil {
+					res.Count("cancelled_gc_steps_failed", 1)
+					for _, n := range nodes {
+						if before[n] != after[n] {
+							res.Violate("failed-gc-changed-content", fmt.Sprintf("a GC that returned %v changed whether node %d is stored (%v -> %v)", gcErr, n, before[n], after[n]), witness(g, kind, orderClass, history))
+							return res
+						}
+					}
+					if named == 0 {
+						// without a named tag the index reload has nothing to traverse, never meets the dead
+						// context, and installs the (empty) rebuilt graph before the sweep notices: see
+						// known_findings.json. Judged under its own key; the case ends here.
+						saved := len(res.Viol)
+						if !check("after gc-under-cancelled-context") {
+							for j := saved; j < len(res.Viol); j++ {
+								if res.Viol[j].Key == "predecessors-mismatch" {
+									res.Viol[j].Key = "interrupted-gc-forgets-stored-manifests:no-named-tag"
+								}
+							}
+						}
+						return res
+					}
+				} else {
+					for _, n := range nodes {
+						stored[n] = after[n]
+					}
+				}
+				if !check("after gc-under-cancelled-context") {
+					return res
+				}
+				continue
+			}
 			if wide && s == 0 {
 				op = 10 // the wide graph is loaded from a layout that lists its top only
 			}
@@ -795,10 +845,23 @@ func reopen(dir string, mode int) (interface {
 }, string, error) {
 	switch mode {
 	case 0:
+		// a load under a context that is already over must fail, not hand out a store with half a graph
+		cctx, cancel := context.WithCancel(ctx)
+		cancel()
+		if s, err := oci.NewWithContext(cctx, dir); err == nil {
+			firstUseCancelled(s)
+			return s, "rw-opened-under-cancelled-context", nil
+		}
 		s, err := oci.New(dir)
+		if err == nil {
+			firstUseCancelled(s)
+		}
 		return s, "rw", err
 	case 1:
 		s, err := oci.NewFromFS(ctx, os.DirFS(dir))
+		if err == nil {
+			firstUseCancelled(s)
+		}
 		return s, "fs", err
 	case 2:
 		tarPath := dir + ".go.tar"
@@ -823,6 +886,14 @@ func reopen(dir string, mode int) (interface {
 		}
 		return preload(s), "systar", nil
 	}
+}
+
+// firstUseCancelled makes the first graph-using call on a freshly opened store one whose context
+// is already over; whatever it answers, later calls with a live context must be exact.
+func firstUseCancelled(s content.PredecessorFinder) {
+	cctx, cancel := context.WithCancel(ctx)
+	cancel()
+	_, _ = s.Predecessors(cctx, ocispec.Descriptor{MediaType: "application/vnd.oci.image.manifest.v1+json", Digest: "sha256:0000000000000000000000000000000000000000000000000000000000000000", Size: 2})
 }
 
 // preload: the predecessor index of a read-only store is built at load time,
